@@ -133,9 +133,16 @@ class Harness(cm.BaseB):
         combos = [("EvoWorklist", 950, False, 2, R + 1, False), ("FluentWorklist", 200, True, 0, max(1, R - 1), False), ("FluentWorklist", 950, True, 2, 1, True), ("EvoWorklist", 200, False, 0, R, True)]
         if pick is not None:
             combos = combos[pick::2]
+        import copy
+        import pickle
+
+        original = plan
         for dev, maxv, with_dest, mix_repeat, vrows, one_trough in combos:
+            # the plan object that is executed: as constructed / after a pickle round trip / a deep copy / a shallow copy
+            plan = {950: {False: original, True: copy.deepcopy(original)}, 200: {False: copy.copy(original), True: pickle.loads(pickle.dumps(original))}}[maxv][with_dest]
             with_dest = with_dest and slack >= 1
-            tag = f"{what} executed on {dev}(max_volume={maxv}), destination={with_dest}, mix_repeat={mix_repeat}, trough rows={vrows}, one trough={one_trough}"
+            how = "as constructed" if plan is original else "after copy / deepcopy / pickle round trip"
+            tag = f"{what} ({how}) executed on {dev}(max_volume={maxv}), destination={with_dest}, mix_repeat={mix_repeat}, trough rows={vrows}, one trough={one_trough}"
             st = rt.Trough("stocks", vrows, 2, min_volume=0, max_volume=1e7, initial_volumes=[1000.0, 1e6], column_names=["other", "analyte"])
             di = rt.Trough("diluent", max(1, vrows - 1) if vrows > 1 else 2, 3, min_volume=0, max_volume=1e7, initial_volumes=[0, 0, 1e6], column_names=[None, None, "buffer"])
             if one_trough:
